@@ -387,32 +387,141 @@ theorem rootSafe_elim (tbl : Table) (h : rootSafe tbl = true) :
         cases this
       · exact h1
 
+theorem mem_of_mem_takeWhile' {α : Type} (p : α → Bool) : ∀ (l : List α) (a : α), a ∈ l.takeWhile p → a ∈ l := by
+  intro l
+  induction l with
+  | nil => intro a h; simp at h
+  | cons x xs ih =>
+    intro a h
+    simp only [List.takeWhile] at h
+    split at h
+    · rcases List.mem_cons.mp h with rfl | h'
+      · exact List.mem_cons_self
+      · exact List.mem_cons_of_mem _ (ih a h')
+    · simp at h
+
+theorem dropWhile_split : ∀ (l : Stack) (root : PTree) (br : List PTree),
+    (l.map (·.2)).dropWhile PTree.isExtra = root :: br →
+    ∃ upper q lower, l = upper ++ (q, root) :: lower ∧ (∀ e, e ∈ upper → e.2.isExtra = true) ∧
+      br = lower.map (·.2) ∧ root.isExtra = false := by
+  intro l
+  induction l with
+  | nil => intro root br h; simp at h
+  | cons e tl ih =>
+    intro root br h
+    obtain ⟨q, x⟩ := e
+    simp only [List.map_cons, List.dropWhile] at h
+    cases hx : x.isExtra with
+    | true =>
+      simp only [hx] at h
+      obtain ⟨upper, q', lower, hl, hu, hb, hr⟩ := ih root br h
+      refine ⟨(q, x) :: upper, q', lower, by simp [hl], ?_, hb, hr⟩
+      intro e he
+      rcases List.mem_cons.mp he with rfl | he'
+      · exact hx
+      · exact hu e he'
+    | false =>
+      simp only [hx] at h
+      cases h
+      exact ⟨[], q, tl, rfl, (by intro e he; cases he), rfl, hx⟩
+
+theorem spells_drop_extras (tbl : Table) : ∀ (upper : Stack) (X : Stack), Spells tbl (upper ++ X) →
+    (∀ e, e ∈ upper → e.2.isExtra = true) → Spells tbl X ∧ topState (upper ++ X) = topState X := by
+  intro upper
+  induction upper with
+  | nil => intro X h _; exact ⟨h, rfl⟩
+  | cons e tl ih =>
+    intro X h hall
+    obtain ⟨q, x⟩ := e
+    obtain ⟨_, hlink, _, htl⟩ := h
+    have hx := hall (q, x) List.mem_cons_self
+    simp only [hx, if_true] at hlink
+    have := ih X htl (fun e he => hall e (List.mem_cons_of_mem _ he))
+    exact ⟨this.1, by simp only [List.cons_append, topState]; rw [hlink]; exact this.2⟩
+
+theorem spells_trees (tbl : Table) : ∀ (st : Stack), Spells tbl st → ∀ e, e ∈ st → TreeOver tbl e.2 := by
+  intro st
+  induction st with
+  | nil => intro _ e he; cases he
+  | cons x tl ih =>
+    intro h e he
+    obtain ⟨q, t⟩ := x
+    rcases List.mem_cons.mp he with rfl | he'
+    · exact h.2.2.1
+    · exact ih h.2.2.2 e he'
+
 /-- the tree built at acceptance is a tree over the table's productions -/
 theorem accept_treeOver (tbl : Table) (h1 : 1 < tbl.stateCount) (hroot : rootSafe tbl = true)
     (st : Stack) (hsp : Spells tbl st) (t : PTree) (hacc : acceptTree st = some t)
     (a : Nat) (hcell : Action.accept ∈ tbl.actions (topState st) a) : TreeOver tbl t := by
   obtain ⟨hno1, honly⟩ := rootSafe_elim tbl hroot
-  -- walk down the extras on top of the root
-  have key : ∀ (s : Stack), Spells tbl s → topState s = topState st → ∀ t', acceptTree s = some t' →
-      ∃ sym pid dp kids (above below : List PTree), t' = PTree.node sym pid dp false (below ++ kids ++ above) ∧
-        IsProd tbl sym (nonExtraSyms kids) pid ∧ (∀ x, x ∈ kids → TreeOver tbl x) ∧
-        (∀ x, x ∈ above → x.isExtra = true ∧ TreeOver tbl x) ∧ (∀ x, x ∈ below → x.isExtra = true ∧ TreeOver tbl x) := by
-    intro s
-    induction s with
-    | nil => intro _ _ t' h; simp [acceptTree, List.dropWhile, PTree.isExtra] at h
-    | cons e tl ih =>
-      intro hs htop t' h
-      obtain ⟨q, x⟩ := e
-      obtain ⟨hqS, hlink, hx, htl⟩ := hs
-      cases hxe : x.isExtra with
-      | true =>
-        simp only [hxe, if_true] at hlink
-        -- an extra on top: it ends up after the root's children
-        have hrec : ∃ t'', acceptTree tl = some t'' ∧ ∃ sym pid dp ks, t'' = PTree.node sym pid dp false ks ∧
-            t' = PTree.node sym pid (sumDyn (ks.dropLast ++ [x, PTree.leaf 0 true])) false (ks.dropLast ++ [x, PTree.leaf 0 true]) := by
-          sorry
-        sorry
-      | false => sorry
-  sorry
+  unfold acceptTree at hacc
+  simp only at hacc
+  split at hacc
+  · next sym pid dp e kids beforeRev hdw =>
+    cases hacc
+    -- the EOF leaf on top is an extra: the root is found in the stack itself
+    have hdw' : (st.map (·.2)).dropWhile PTree.isExtra = PTree.node sym pid dp e kids :: beforeRev := by
+      simpa [List.dropWhile, PTree.isExtra] using hdw
+    obtain ⟨upper, q, lower, hl, hu, hb, hr⟩ := dropWhile_split st _ _ hdw'
+    subst hl
+    obtain ⟨hX, htop⟩ := spells_drop_extras tbl upper _ hsp hu
+    obtain ⟨hqS, hlink, hnode, hlow⟩ := hX
+    simp only [hr, Bool.false_eq_true, if_false, PTree.sym] at hlink
+    have htop' : topState (upper ++ (q, PTree.node sym pid dp e kids) :: lower) = q := by
+      rw [htop]; rfl
+    rw [htop'] at hcell
+    have hp1 : topState lower = 1 := honly q a _ _ hqS (spells_top tbl h1 lower hlow) hcell hlink
+    have hlowx := below_all_extra tbl hno1 h1 lower hlow hp1
+    cases hnode with
+    | node hprod hkids =>
+      have hafter : ∀ x, x ∈ (List.takeWhile PTree.isExtra (PTree.leaf 0 true :: List.map (·.2) (upper ++ (q, PTree.node sym pid dp e kids) :: lower))).reverse →
+          x.isExtra = true ∧ TreeOver tbl x := by
+        intro x hx
+        rw [List.mem_reverse] at hx
+        refine ⟨mem_takeWhile_imp' _ _ _ hx, ?_⟩
+        have hmem := mem_of_mem_takeWhile' _ _ _ hx
+        rcases List.mem_cons.mp hmem with rfl | hmem'
+        · exact .leaf
+        · simp only [List.mem_map] at hmem'
+          obtain ⟨e', he', rfl⟩ := hmem'
+          exact spells_trees tbl _ hsp e' he'
+      have hbefore : ∀ x, x ∈ beforeRev.reverse → x.isExtra = true ∧ TreeOver tbl x := by
+        intro x hx
+        rw [List.mem_reverse, hb] at hx
+        simp only [List.mem_map] at hx
+        obtain ⟨e', he', rfl⟩ := hx
+        exact ⟨hlowx e' he', spells_trees tbl lower hlow e' he'⟩
+      refine .node ?_ ?_
+      · rw [nonExtraSyms_append, nonExtraSyms_append, nonExtraSyms_extras _ (fun x hx => (hbefore x hx).1),
+          nonExtraSyms_extras _ (fun x hx => (hafter x hx).1)]
+        simpa using hprod
+      · intro x hx
+        rcases List.mem_append.mp hx with hx | hx
+        · rcases List.mem_append.mp hx with hx | hx
+          · exact (hbefore x hx).2
+          · exact hkids x hx
+        · exact (hafter x hx).2
+  · cases hacc
+
+/-- the invariant along the loop -/
+theorem runLoop_sound (tbl : Table) (h1 : 1 < tbl.stateCount) (hroot : rootSafe tbl = true) :
+    ∀ (fuel : Nat) (c : Conf) (t : PTree), Spells tbl c.stack → runLoop tbl fuel c = .accepted t → TreeOver tbl t := by
+  intro fuel
+  induction fuel with
+  | zero => intro c t _ h; simp [runLoop] at h
+  | succ k ih =>
+    intro c t hsp h
+    unfold runLoop at h
+    cases hstep : step tbl c with
+    | inl c' =>
+      rw [hstep] at h
+      exact ih c' t (step_spells tbl h1 c c' hsp hstep) h
+    | inr o =>
+      rw [hstep] at h
+      simp only at h
+      subst h
+      obtain ⟨hacc, a, hcell⟩ := step_accept_cell tbl c t hstep
+      exact accept_treeOver tbl h1 hroot c.stack hsp t hacc a hcell
 
 end TsVerif.C03
